@@ -166,6 +166,7 @@ Definition eval_expr (e : env) (v : str) (ms : list modifier) : option (defstate
 Record num := mknum { nnum : Z; nden : Z }. (* nden > 0 *)
 Definition num_eqb (a b : num) : bool := (nnum a * nden b =? nnum b * nden a)%Z.
 Definition num_is_zero (a : num) : bool := (nnum a =? 0)%Z.
+Definition num_ltb (a b : num) : bool := (nnum a * nden b <? nnum b * nden a)%Z.
 
 Definition is_cspace (c : N) : bool := (c =? 32) || ((9 <=? c) && (c <=? 13)).
 Fixpoint skip_cspace (s : str) : str :=
@@ -314,9 +315,11 @@ Inductive cond :=
 | CDefined (v : str)
 | CLeaf (l : leaf)
 | CCmp (l : leaf) (eq : bool) (r : leaf)
+| CCmpOrd (l : leaf) (less orEqual : bool) (r : leaf)   (* < <= > >= *)
 | CNot (c : cond)
 | CAnd (a b : cond)
-| COr (a b : cond).
+| COr (a b : cond)
+| CSyntaxError.   (* text that cond.c rejects: a further token after a complete condition *)
 
 (* value of a leaf: Some (Some (text, quoted)) | Some None = malformed | None = outside *)
 Fixpoint eval_parts (e : env) (ps : list part) : option str :=
@@ -395,6 +398,26 @@ Fixpoint eval (e : env) (c : cond) : option tri :=
       | _, _ => None
       end
     end
+  | CCmpOrd l less orEqual r =>
+    (* EvalCompare: < <= > >= are numeric only; on strings they are an error *)
+    match l with
+    | LWord _ => None
+    | _ =>
+      match eval_leaf e l, eval_leaf e r with
+      | Some (Some (ls, lq)), Some (Some (rs, rq)) =>
+        if negb lq && negb rq then
+          match try_parse_number ls, try_parse_number rs with
+          | Some a, Some b =>
+            let lt := if less then num_ltb a b else num_ltb b a in
+            Some (tri_of_bool (lt || (orEqual && num_eqb a b)))
+          | _, _ => Some TMalformed
+          end
+        else Some TMalformed
+      | Some None, Some _ => Some TMalformed
+      | Some _, Some None => Some TMalformed
+      | _, _ => None
+      end
+    end
   | CNot c1 => option_map tri_not (eval e c1)
   | CAnd a b =>
     match eval e a with
@@ -408,6 +431,7 @@ Fixpoint eval (e : env) (c : cond) : option tri :=
     | Some TTrue => match eval e b with Some _ => Some TTrue | None => None end
     | other => other
     end
+  | CSyntaxError => Some TMalformed
   end.
 
 (* ------------------------------------------------------------------ *)
@@ -584,7 +608,12 @@ Fixpoint parse_or (fuel : nat) (s : str) : option (cond * str) :=
                      | Some (rl, r4) => Some (CCmp l (o1 =? 61) rl, r4)
                      | None => None
                      end
-                   else if (o1 =? 60) || (o1 =? 62) then None
+                   else if (o1 =? 60) || (o1 =? 62) then
+                     let orEqual := o2 =? 61 in
+                     match parse_leaf (skip_hspace (if orEqual then r3 else o2 :: r3)) with
+                     | Some (rl, r4) => Some (CCmpOrd l (o1 =? 60) orEqual rl, r4)
+                     | None => None
+                     end
                    else Some (CLeaf l, r1)
                  | _ => Some (CLeaf l, r1)
                  end
@@ -630,9 +659,24 @@ Fixpoint parse_or (fuel : nat) (s : str) : option (cond * str) :=
     end
   end.
 
+(* CondParser_Eval: after a complete condition the next token must be the end of
+   the line.  Anything that starts a leaf there (a word, a number, a quoted string,
+   an expression: every byte except the operator bytes & | ) = ! < >) is a token and
+   makes the whole line a "Malformed conditional"; a rest starting with an operator
+   byte may be syntax this reader does not cover, so it is left outside. *)
+Definition starts_leaf (r : str) : bool :=
+  match r with
+  | c :: _ => negb ((c =? 38) || (c =? 124) || (c =? 41) || (c =? 61) || (c =? 33) || (c =? 60) || (c =? 62))
+  | [] => false
+  end.
+
 Definition parse_cond (s : str) : option cond :=
   match parse_or (S (S (length s))) s with
-  | Some (c, r) => match skip_hspace r with [] => Some c | _ => None end
+  | Some (c, r) =>
+    match skip_hspace r with
+    | [] => Some c
+    | r' => if starts_leaf r' then Some CSyntaxError else None
+    end
   | None => None
   end.
 
